@@ -15,7 +15,7 @@ bad=0
 for d in seeded/* selftest/refactors/*; do
   [ -f $d/patch.diff ] || continue
   case "$d" in *"$filter"*) ;; *) continue;; esac
-  prop=$(python3 -c "import json,sys; print(json.load(open('$d/meta.json'))['property'])")
+  prop=$(python3 -c "import json,sys; m=json.load(open('$d/meta.json')); print(m.get('check_with', m['property']))")
   expect=$(python3 -c "import json,sys; print(json.load(open('$d/meta.json')).get('expect','fail'))")
   (cd $wt && git checkout -q -- . && git apply /verif/$d/patch.diff) || { echo "SELFTEST $d: patch does not apply"; bad=1; continue; }
   VERIF_REPO=$wt ./check $prop $tier > /tmp/selftest_run.log 2>&1
@@ -24,6 +24,8 @@ for d in seeded/* selftest/refactors/*; do
   first=$(grep -m1 '^  obligation' /tmp/selftest_run.log | cut -c1-160)
   if [ "$expect" = fail ] && [ $rc -eq 1 ] && [ $n -gt 0 ]; then echo "SELFTEST ok   $d ($prop): detected, $n violation line(s); $first"
   elif [ "$expect" = pass ] && [ $rc -eq 0 ]; then echo "SELFTEST ok   $d ($prop): no alarm"
+  elif [ "$expect" = miss ] && [ $rc -eq 0 ]; then echo "SELFTEST miss $d ($prop): NOT detected - a documented gap (DESIGN.md 0.7), not counted as a failure of the corpus"
+  elif [ "$expect" = miss ] && [ $rc -eq 1 ] && [ $n -gt 0 ]; then echo "SELFTEST ok   $d ($prop): detected although recorded as a gap, $n violation line(s); $first"
   else echo "SELFTEST FAIL $d ($prop): expected $expect, exit=$rc violations=$n"; bad=1; fi
 done
 cp /tmp/selftest_evidence/*.json evidence/ 2>/dev/null; rm -rf /tmp/selftest_evidence
